@@ -57,14 +57,24 @@ theorem hop_status_table (e : Err) (s : Nat)
   rw [h1] at h
   simp [wireStatus, h]
 
-/-- … and for codes without a row the error's own HTTP status, else 500. -/
+/-- … and for codes without a row the error's own HTTP status when that is an error status (4xx, 5xx), else 500. -/
 theorem hop_status_own (e : Err)
     (h : tableStatus table (codeOf (hop S C compact table stdMsg false e)) = none) :
-    asHTTP (hop S C compact table stdMsg false e) = some ((asHTTP e).getD 500) := by
+    asHTTP (hop S C compact table stdMsg false e) = some (ownStatus e) := by
   rw [hop_status]
   have h1 : codeOf (hop S C compact table stdMsg false e) = wireCode e := by simp [hop_eq, codeOf, asOci]
   rw [h1] at h
   simp [wireStatus, h]
+
+/-- An error's own status, as it is put on the wire, is an error status (fix F29). -/
+theorem ownStatus_error_status (e : Err) : 400 ≤ ownStatus e ∧ ownStatus e ≤ 599 := by
+  unfold ownStatus
+  cases asHTTP e with
+  | none => decide
+  | some s =>
+    by_cases h : 400 ≤ s ∧ s ≤ 599
+    · simp [h]
+    · simp [h]
 
 /-- Detail JSON is preserved (up to `encoding/json`'s compaction). -/
 theorem hop_detail (e : Err) :
@@ -115,7 +125,11 @@ theorem hop_idempotent (hc : ∀ d, compact (compact d) = compact d) (e : Err) :
     rw [hcode]
     cases h : tableStatus table (wireCode e) with
     | some s => rfl
-    | none => simp [hop_eq, asHTTP, wireStatus, h]
+    | none =>
+      have hr := ownStatus_error_status e
+      simp only [hop_eq, wireStatus, h]
+      generalize ownStatus e = s at hr
+      simp [ownStatus, asHTTP, hr.1, hr.2]
   have hdet : (detailOf (hop S C compact table stdMsg false e)).map compact = (detailOf e).map compact := by
     rw [hop_detail]
     cases detailOf e <;> simp [hc]
